@@ -24,7 +24,7 @@ func init() {
 	core.Register(&core.Check{
 		ID:    "C07",
 		Level: "exploration",
-		Rule: "E-lin + E-race: 2-6 client goroutines x 4-10 operations each (Add/Remove/WatchList over 3-4 directories, with and without one Close) record {call, return} around every public API call from one monotonic clock while 1-3 mutator goroutines create/write/rename/delete entries inside those directories and a consumer drains at PRNG pace; " +
+		Rule: "E-lin + E-race: 2-6 client goroutines x 4-10 operations each (Add/Remove/WatchList over 3-4 directories, with and without one Close) record {call, return} around every public API call from one monotonic clock while 1-3 mutator goroutines create/write/rename/delete entries inside those directories and a consumer drains at PRNG pace (in a third of the histories it receives nothing until the clients are done, so the reader is parked); a final WatchList after a sentinel barrier is part of every history; " +
 			"GOMAXPROCS in {1,2,4,16}; PRNG delays at the verif yield points. Each history is checked with porcupine against a sequential model (closed flag + set of watched paths; Add=>nil/ErrClosed, Remove=>nil/ErrNonExistentWatch, WatchList=>exactly the set without duplicates, nil iff closed, Close=>nil); any other result has no transition. " +
 			"The same workload runs under the race detector (reports with a frame in the library are violations). A weaker-oracle variant lets mutators delete/rename/recreate the watched directories themselves: only no race/panic/deadlock, result classes, no duplicates and tables==kernel at the final barrier are checked. " +
 			"distinct_nontrivial = distinct histories (by operation/result vector) with >=2 genuinely overlapping operations",
